@@ -565,7 +565,7 @@ func c03Gen(tp *Tapes) *c03Spec {
 		case k == 8 && g.Draw(3) == 0:
 			// housekeeping calls that must not touch the sandbox: cache cleaning, and
 			// re-registering a probe tag/filter with an equivalent implementation
-			op.Kind = []string{"cleancache", "cleancache-all", "replace-tag", "replace-filter"}[g.Draw(4)]
+			op.Kind = []string{"cleancache", "cleancache-all", "replace-tag", "replace-filter", "new-options"}[g.Draw(5)]
 			op.Target = []string{"probe_t0", "probe_t1"}[g.Draw(2)]
 			if op.Kind == "replace-filter" {
 				op.Target = []string{"probe_f0", "probe_f1"}[g.Draw(2)]
@@ -759,6 +759,9 @@ func (s *c03Side) do(i int, op c03Op, withBans bool) (r *c03Res) {
 		if withBans {
 			r.BanErr = errStr(pongo2.ReplaceFilter(op.Target, probeFilterFn(op.Target)))
 		}
+	case "new-options":
+		// the caller replaces the set's Options value as a whole (an exported field)
+		set.Options = &pongo2.Options{}
 	case "exec":
 		tpl := s.tpls[op.ExecOf]
 		if tpl == nil {
@@ -978,7 +981,7 @@ opsLoop:
 					bset[op.Target] = true
 				}
 			}
-		case "cleancache", "cleancache-all", "replace-tag", "replace-filter":
+		case "cleancache", "cleancache-all", "replace-tag", "replace-filter", "new-options":
 			res := sys.do(i, op, true)
 			twin.do(i, op, false)
 			out.dig(op.Kind, res.BanErr)
